@@ -6,6 +6,7 @@ import Gts.Lemmas.Reverse
 import Gts.Lemmas.Table
 import Gts.Model.SeqNuc
 import Gts.Props.C18
+import Gts.Lemmas.Locate
 namespace Gts.C05
 open Gts Loc
 
@@ -147,5 +148,218 @@ example : wf (complement (ambiguous 5 9)) = true ∧ reverseAbs (complement (amb
     wf (complement (compl (joined [ranged 0 2 true false, ranged 4 6 false false]))) = true ∧
     reverseAbs (complement (compl (joined [ranged 0 2 true false, ranged 4 6 false false]))) 12 = false := by
   decide
+
+/-! ### byte level: what `Location.Region().Locate(seq)` extracts
+
+`Reg.locate` (Gts/Model/Cli.lean) is the model of `Segment.Locate` / `Regions.Locate`,
+`Loc.region` (Gts/Model/Region.lean) the model of every `Region()` method, `readAt` / `denIn` /
+`uToT` (Gts/Spec/Read.lean) are pure spec-side definitions.
+
+OUTSIDE the in-bounds hypothesis: `Segment.Locate` calls `gts.Slice(seq, head, tail)`, which adds
+`len` to a negative coordinate (wraps around), rotates when `end < start` after that, and then
+slices `seq.Bytes()[start:end]` — a PANIC for a coordinate beyond `len` (or below `-len`).  The
+model's `Seq.sliceFwd` is total (`drop`/`take` truncate), so nothing is claimed there. -/
+
+/-- **locate_bytes** (DESIGN §3): for a well-formed location whose denoted positions are all
+indices of the record, the residues extracted by `l.Region().Locate(seq)` are exactly the
+denotation of `l` read off the record — `seq[x]` for a residue `(x, forward)`,
+`complementByte seq[x]` for `(x, complement strand)`, in denotation order — and every one of
+these reads is a real index (the default of `readAt` is never used). -/
+theorem locate_bytes (l : Loc) (s : Seq) (hw : wf l = true) (hb : denIn s.len (den l)) :
+    (Reg.locate (region l) s).bytes = (den l).map (readAt s.bytes) ∧
+    ∀ p ∈ den l, readAt? s.bytes p = some (readAt s.bytes p) :=
+  ⟨locate_region_bytes l s hw hb, fun p hp => readAt?_eq_some (hb p hp).1 (hb p hp).2⟩
+
+/-- the same under the REGION guard of C09/C15 (`Reg.within`: both ends of every segment of
+`l.Region()` lie in `[0, len]`) — exactly the condition under which no `Slice` inside `Locate`
+wraps, rotates or leaves the byte array; it also bounds zero-length segments (between-sites). -/
+theorem locate_bytes_within (l : Loc) (s : Seq) (hw : wf l = true)
+    (hb : Reg.within s.len (region l)) :
+    (Reg.locate (region l) s).bytes = (den l).map (readAt s.bytes) :=
+  locate_region_bytes l s hw (den_region l hw ▸ Reg.denIn_of_within hb)
+
+/-- region level (C08 / C15 `Locate` on any region tree, e.g. a resized one): the extracted
+residues are `Reg.den` read off the record. -/
+theorem region_locate_bytes (r : Reg) (s : Seq) (hb : denIn s.len (Reg.den r)) :
+    (Reg.locate r s).bytes = (Reg.den r).map (readAt s.bytes) := Reg.locate_bytes_den r s hb
+
+/-- `Location.Region()` denotes what the location denotes, and `Region.Complement()` denotes the
+same residues on the other strand in opposite order. -/
+theorem region_den (l : Loc) (hw : wf l = true) :
+    Reg.den (region l) = den l ∧ ∀ r : Reg, Reg.den r.complement = flipDen (Reg.den r) :=
+  ⟨den_region l hw, Reg.den_complement⟩
+
+/-- non-vacuity: a complement-strand join inside a 12-residue record, and its region guard -/
+example : wf (compl (joined [ranged 0 2 true false, point 5, ranged 8 10 false true])) = true ∧
+    denIn (Seq.len ⟨[], [65,67,71,84,65,67,71,84,65,67,71,84]⟩)
+      (den (compl (joined [ranged 0 2 true false, point 5, ranged 8 10 false true]))) ∧
+    Reg.within (Seq.len ⟨[], [65,67,71,84,65,67,71,84,65,67,71,84]⟩)
+      (region (compl (joined [ranged 0 2 true false, point 5, ranged 8 10 false true]))) ∧
+    denIn 12 (Reg.den (.many [.seg 10 8, .seg 0 3])) := by
+  decide
+
+/-- the located residues of `complement(l)` are the reverse complement of those of `l` (up to
+U → T on the residues complemented twice, i.e. where `l` itself is on the complement strand) -/
+theorem extract_compl (l : Loc) (s : Seq) (hw : wf l = true) (hb : denIn s.len (den l)) :
+    (Reg.locate (region (compl l)) s).bytes.map uToT =
+      ((Reg.locate (region l) s).bytes.map Nuc.complementByte).reverse := by
+  have hbc : denIn s.len (den (compl l)) := by simpa [den] using denIn_flipDen.mpr hb
+  rw [locate_region_bytes (compl l) s (by simpa [wf] using hw) hbc, locate_region_bytes l s hw hb]
+  simpa [den] using map_readAt_flipDen s.bytes (den l) hb
+
+/-- complementing a location twice (`Complemented{Complemented{l}}`) extracts what `l` extracts -/
+theorem extract_compl_compl (l : Loc) (s : Seq) (hw : wf l = true) (hb : denIn s.len (den l)) :
+    (Reg.locate (region (compl (compl l))) s).bytes = (Reg.locate (region l) s).bytes := by
+  have e : den (compl (compl l)) = den l := by simp [den, flipDen_flipDen]
+  rw [locate_region_bytes (compl (compl l)) s (by simpa [wf] using hw) (e ▸ hb),
+    locate_region_bytes l s hw hb, e]
+
+/-- non-vacuity for the two corollaries above -/
+example : wf (compl (ranged 2 6 false false)) = true ∧
+    denIn (Seq.len ⟨[], [65,67,71,84,65,67,71,85]⟩) (den (compl (ranged 2 6 false false))) := by
+  decide
+
+/-! ### reverse-complement preserves the extracted residues -/
+
+/-- FULL STATEMENT of the extraction clause (no duplicate-read guard): false on the model, because
+`Reverse` re-joins the parts and `Join` drops a part it has already covered —
+`join(3,3)` reads residue 3 twice, its reverse `Point` reads it once. -/
+theorem revcomp_extract_full_refuted :
+    ¬ (∀ (l : Loc) (s r : Seq), s.revcompRec = some r → wf l = true → reverseAbs l s.len = false →
+        denIn s.len (den l) →
+        (Reg.locate (region (compl (reverse l s.len))) r).bytes =
+          (Reg.locate (region l) s).bytes.map uToT) := by
+  intro h
+  have := h (joined [point 2, point 2]) ⟨[], [65,67,71,84,65,67]⟩ ⟨[], [71,84,65,67,71,84]⟩
+    (by rfl) (by decide) (by decide) (by decide)
+  revert this
+  decide +kernel
+
+/-- **reverse-complement extraction, any well-formed location**: what
+`complement(reverse l)` extracts from the reverse-complemented record are the residues `l`
+extracts from the original one — the same reads in the same order, each on its strand — except
+that a residue `l` reads more than once may be read fewer times (`d ≼ den l`: `Join` inside
+`Reverse` drops repeated parts), and U comes back as T.  Guards as in `revcomp_den_partial`
+(K2; a between-site, K1, denotes no residue) plus the in-bounds hypothesis. -/
+theorem revcomp_extract_refines_partial (l : Loc) (s r : Seq) (hr : s.revcompRec = some r)
+    (hw : wf l = true) (hk2 : reverseAbs l s.len = false) (hb : denIn s.len (den l)) :
+    ∃ d, d ≼ den l ∧
+      (Reg.locate (region (compl (reverse l s.len))) r).bytes = (d.map (readAt s.bytes)).map uToT := by
+  obtain ⟨r', hr', hbytes, _⟩ := seq_revcomp s
+  obtain rfl : r' = r := Option.some.inj (hr'.symm.trans hr)
+  have hlen : r'.len = s.len := by simp [Seq.len, hbytes]
+  have href := revcomp_den_partial l s.len hw hk2
+  have hwT : wf (compl (reverse l s.len)) = true := by
+    simpa [wf] using (reverse_mirror l s.len hw).2
+  have hbT : denIn r'.len (den (compl (reverse l s.len))) := by
+    rw [hlen]
+    exact denIn_of_subset (fun p hp => href.1.subset hp) (denIn_map_revcompPos hb)
+  refine ⟨(den (compl (reverse l s.len))).map (fun p => (s.len - 1 - p.1, !p.2)), ?_, ?_⟩
+  · have := href.map (fun p => (s.len - 1 - p.1, !p.2))
+    rwa [map_revcompPos_involutive] at this
+  · have hd : denIn s.len ((den (compl (reverse l s.len))).map (fun p => (s.len - 1 - p.1, !p.2))) :=
+      denIn_map_revcompPos (hlen ▸ hbT)
+    have := map_readAt_revcomp s.bytes _ hd
+    rw [show ((s.bytes.length : Int)) = s.len from rfl, map_revcompPos_involutive] at this
+    rw [locate_region_bytes _ r' hwT hbT, hbytes, this]
+
+/-- **reverse-complement preserves the extracted sequence** (the last clause of C05): for a
+well-formed location inside the record that reads no residue twice (every real feature),
+`complement(reverse l)` — what `gts.Reverse` then `gts.Complement` make of a feature location —
+extracts from the reverse-complemented record exactly the residues `l` extracts from the
+original record, up to U → T.  Guards: K2 (`reverseAbs`), in bounds, duplicate-free; K1
+(between-sites) costs nothing here because a between-site denotes no residue. -/
+theorem revcomp_extract_partial (l : Loc) (s r : Seq) (hr : s.revcompRec = some r)
+    (hw : wf l = true) (hk2 : reverseAbs l s.len = false) (hb : denIn s.len (den l))
+    (hnd : (den l).Nodup) :
+    (Reg.locate (region (compl (reverse l s.len))) r).bytes =
+      (Reg.locate (region l) s).bytes.map uToT := by
+  obtain ⟨d, hd, he⟩ := revcomp_extract_refines_partial l s r hr hw hk2 hb
+  rw [he, hd.eq_of_nodup hnd, locate_region_bytes l s hw hb]
+
+/-- the same for `Location.Complement` proper (which unwraps a `Complemented` instead of wrapping
+it twice): `gts.Complement(gts.Reverse(seq))` re-locates `l` to `(l.Reverse(len)).Complement()` -/
+theorem revcomp_extract_unwrap_partial (l : Loc) (s r : Seq) (hr : s.revcompRec = some r)
+    (hw : wf l = true) (hk2 : reverseAbs l s.len = false) (hb : denIn s.len (den l))
+    (hnd : (den l).Nodup) :
+    (Reg.locate (region (complement (reverse l s.len))) r).bytes =
+      (Reg.locate (region l) s).bytes.map uToT := by
+  obtain ⟨r', hr', hbytes, _⟩ := seq_revcomp s
+  obtain rfl : r' = r := Option.some.inj (hr'.symm.trans hr)
+  have hlen : r'.len = s.len := by simp [Seq.len, hbytes]
+  have e : den (complement (reverse l s.len)) = den (compl (reverse l s.len)) := by
+    rw [den_complement]; simp [den]
+  have hwR : wf (reverse l s.len) = true := (reverse_mirror l s.len hw).2
+  have hbT : denIn r'.len (den (compl (reverse l s.len))) := by
+    rw [hlen]
+    exact denIn_of_subset (fun p hp => (revcomp_den_partial l s.len hw hk2).1.subset hp)
+      (denIn_map_revcompPos hb)
+  rw [← revcomp_extract_partial l s r' hr hw hk2 hb hnd,
+    locate_region_bytes _ r' (by rw [wf_complement]; exact hwR) (e ▸ hbT),
+    locate_region_bytes _ r' (by simpa [wf] using hwR) hbT, e]
+
+/-- … and on a record without U / u the extracted residues are literally equal. -/
+theorem revcomp_extract_noU_partial (l : Loc) (s r : Seq) (hr : s.revcompRec = some r)
+    (hw : wf l = true) (hk2 : reverseAbs l s.len = false) (hb : denIn s.len (den l))
+    (hnd : (den l).Nodup) (hu : ∀ b ∈ s.bytes, b ≠ 85 ∧ b ≠ 117) :
+    (Reg.locate (region (compl (reverse l s.len))) r).bytes = (Reg.locate (region l) s).bytes := by
+  rw [revcomp_extract_partial l s r hr hw hk2 hb hnd, locate_region_bytes l s hw hb]
+  exact map_uToT_map_readAt_of_noU s.bytes (den l) hb hu
+
+/-- non-vacuity: an odd-arity complement-strand join with partial ends on a 12-residue record
+(with and without U) meets every hypothesis -/
+example :
+    let l := compl (joined [ranged 0 2 true false, ranged 4 6 false false, ranged 8 10 false true])
+    let s : Seq := ⟨[], [65,67,71,85,65,67,71,84,65,67,71,84]⟩
+    s.revcompRec.map (·.bytes) = some [65,67,71,84,65,67,71,84,65,67,71,84] ∧
+    wf l = true ∧ reverseAbs l s.len = false ∧ denIn s.len (den l) ∧ (den l).Nodup ∧
+    (∀ b ∈ ([65,67,71,84,65,67,71,84,65,67,71,84] : List UInt8), b ≠ 85 ∧ b ≠ 117) := by
+  decide +kernel
+
+/-! ### record level: every feature of `gts.Reverse(gts.Complement(seq))` -/
+
+/-- **one feature of the reverse-complemented record**: `gts.Complement` then `gts.Reverse` turn
+the location `l` into `reverse (complement l) len`; from the reverse-complemented record it
+extracts the residues `l` extracts from the original (up to U → T).  Guards on the complemented
+location as in `seq_revcomp_den_partial`, in bounds, duplicate-free. -/
+theorem seq_revcomp_extract_partial (l : Loc) (s r : Seq) (hr : s.revcompRec = some r)
+    (hw : wf (complement l) = true) (hk2 : reverseAbs (complement l) s.len = false)
+    (hb : denIn s.len (den l)) (hnd : (den l).Nodup) :
+    (Reg.locate (region (reverse (complement l) s.len)) r).bytes =
+      (Reg.locate (region l) s).bytes.map uToT := by
+  obtain ⟨r', hr', hbytes, _⟩ := seq_revcomp s
+  obtain rfl : r' = r := Option.some.inj (hr'.symm.trans hr)
+  have hlen : r'.len = s.len := by simp [Seq.len, hbytes]
+  have hwl : wf l = true := by rw [← wf_complement]; exact hw
+  have hden : den (reverse (complement l) s.len) = (den l).map (fun p => (s.len - 1 - p.1, !p.2)) :=
+    (seq_revcomp_den_partial l s.len hw hk2).eq_of_nodup (nodup_map_revcompPos _ _ hnd)
+  have hwT : wf (reverse (complement l) s.len) = true := (reverse_mirror _ s.len hw).2
+  have hbT : denIn r'.len (den (reverse (complement l) s.len)) := by
+    rw [hlen, hden]; exact denIn_map_revcompPos hb
+  rw [locate_region_bytes _ r' hwT hbT, hden, hbytes, locate_region_bytes l s hwl hb]
+  exact map_readAt_revcomp s.bytes (den l) hb
+
+/-- **the whole record**: `gts.Reverse(gts.Complement(seq))` never panics, keeps every feature
+(none lost or duplicated) re-located by `Complement` then `Reverse(len)`, and EVERY feature that
+meets the guards extracts from the new record what it extracted from the old one (up to U → T). -/
+theorem seq_revcomp_extract_all_partial (s : Seq) :
+    ∃ r, s.revcompRec = some r ∧
+      r.feats.Perm (s.feats.map fun f => { f with loc := (f.loc.complement).reverse s.len }) ∧
+      ∀ f ∈ s.feats, wf (complement f.loc) = true → reverseAbs (complement f.loc) s.len = false →
+        denIn s.len (den f.loc) → (den f.loc).Nodup →
+        (Reg.locate (region (reverse (complement f.loc) s.len)) r).bytes =
+          (Reg.locate (region f.loc) s).bytes.map uToT := by
+  obtain ⟨r, hr, _, hperm⟩ := seq_revcomp s
+  exact ⟨r, hr, hperm, fun f _ hw hk2 hb hnd => seq_revcomp_extract_partial f.loc s r hr hw hk2 hb hnd⟩
+
+/-- non-vacuity: a record with a forward gene and a complement-strand join; both features meet
+the guards -/
+example :
+    let s : Seq := ⟨[⟨"gene", ranged 1 7 false false, []⟩,
+      ⟨"CDS", compl (joined [ranged 0 2 true false, ranged 4 6 false false]), []⟩],
+      [65,67,71,85,65,67,71,84,65,67,71,84]⟩
+    ∀ f ∈ s.feats, wf (complement f.loc) = true ∧ reverseAbs (complement f.loc) s.len = false ∧
+      denIn s.len (den f.loc) ∧ (den f.loc).Nodup := by
+  decide +kernel
 
 end Gts.C05
